@@ -209,6 +209,126 @@ theorem run_inv (allow : Bool) (valid : String → Bool) : ∀ (ws : List Wake) 
       exact ih c1 c' (wake_inv _ c c1 w.now hinv hw) h
     · simp at h
 
+/-! ### everything the check sends is a probe -/
+
+def AllProbes (sent : List (Int × Pkt)) : Prop := ∀ x ∈ sent, ∃ s, x.2 = probePkt s
+
+theorem blockres_probes (env : Env) (st : PState) (r : PState × List Pkt × Outcome) (hr : BlockRes env st r) :
+    ∀ p ∈ r.2.1, ∃ s, p = probePkt s := by
+  cases hr <;> simp
+
+theorem after_probes (c : Cfg) (now : Int) (env : Env) (st : PState) (r : PState × List Pkt × Outcome) (hp : AllProbes c.sent)
+    (hr : BlockRes env st r) : AllProbes (c.after now r).sent := by
+  intro x hx
+  simp only [Cfg.after, List.mem_append, List.mem_map] at hx
+  rcases hx with hx | ⟨p, hp', rfl⟩
+  · exact hp x hx
+  · exact blockres_probes env st r hr p hp'
+
+theorem run_inv_probes (allow : Bool) (valid : String → Bool) : ∀ (ws : List Wake) (c c' : Cfg), Inv c → AllProbes c.sent →
+    c.run allow valid ws = some c' → Inv c' ∧ AllProbes c'.sent := by
+  intro ws
+  induction ws with
+  | nil => intro c c' hinv hp h; simp [Cfg.run] at h; rw [← h]; exact ⟨hinv, hp⟩
+  | cons w ws ih =>
+    intro c c' hinv hp h
+    simp only [Cfg.run] at h
+    split at h
+    · rename_i c1 hw
+      have hinv1 := wake_inv _ c c1 w.now hinv hw
+      obtain ⟨due, hph, h1, h2, rfl⟩ := wake_some _ c c1 w.now hw
+      simp only [Inv, hph] at hinv
+      obtain ⟨_, hdue, hlt, hi⟩ := hinv
+      have hr := resume_res { allow, valid, bucket := w.bucket } c.st w.now hi (by omega)
+      exact ih _ c' hinv1 (after_probes c w.now _ _ _ hp hr) h
+    · simp at h
+
+theorem start_probes (env : Env) (svc : Svc) (inst : String) (now : Int) : AllProbes (Cfg.start env svc inst now).sent := by
+  rw [start_eq]
+  exact after_probes _ now env _ _ (by intro x hx; simp at hx) (start_res env svc inst now)
+
+/-! ### names only move forward: `base`, `-2`, `-3`, … -/
+
+/-- the name the info carries when the next unused suffix is `k` -/
+def nameOf (inst type base : String) (k : Nat) : String := if k = 2 then base else mkName inst (k - 1) type
+
+theorem nameOf_inj (inst type : String) (a b : Nat) (ha : 2 ≤ a) (hb : 2 ≤ b)
+    (h : nameOf inst type (inst ++ "." ++ type) a = nameOf inst type (inst ++ "." ++ type) b) : a = b := by
+  unfold nameOf at h
+  by_cases h2a : a = 2 <;> by_cases h2b : b = 2 <;> simp [h2a, h2b] at h
+  · omega
+  · exact absurd h.symm (mkName_ne_base inst type _)
+  · exact absurd h (mkName_ne_base inst type _)
+  · have := mkName_inj inst type _ _ h; omega
+
+/-- while the check is alive the info's name is determined by the suffix counter, which never falls below `k` -/
+def NInv (inst type base : String) (k : Nat) (c : Cfg) : Prop :=
+  match c.phase with
+  | .waiting _ | .done =>
+      c.st.inst = inst ∧ c.st.svc.type = type ∧ k ≤ c.st.nextInst ∧ 2 ≤ c.st.nextInst ∧ c.st.svc.name = nameOf inst type base c.st.nextInst
+  | _ => True
+
+theorem block_ninv (env : Env) (inst type base : String) (k : Nat) (st₀ : PState) (sent : List (Int × Pkt)) (r : PState × List Pkt × Outcome)
+    (h1 : st₀.inst = inst) (h2 : st₀.svc.type = type) (h3 : k ≤ st₀.nextInst) (h4 : 2 ≤ st₀.nextInst)
+    (h5 : st₀.svc.name = nameOf inst type base st₀.nextInst) (hr : BlockRes env st₀ r) :
+    NInv inst type base k { st := r.1, phase := phaseOf st₀.now r.2.2, sent := sent } := by
+  cases hr with
+  | sleep _ _ => exact ⟨h1, h2, h3, h4, h5⟩
+  | probe _ _ _ => exact ⟨h1, h2, h3, h4, h5⟩
+  | last _ _ _ => exact ⟨h1, h2, h3, h4, h5⟩
+  | nonUnique _ _ => simp [NInv, phaseOf]
+  | renamed n _ _ hle _ _ _ =>
+    simp only [NInv, phaseOf, renamedTo]
+    refine ⟨h1, h2, by omega, by omega, ?_⟩
+    have : n + 1 ≠ 2 := by omega
+    simp [nameOf, this, h1, h2]
+  | badType _ _ _ _ _ _ _ _ => simp [NInv, phaseOf]
+
+theorem start_ninv (env : Env) (svc : Svc) (inst : String) (now : Int) : NInv inst svc.type svc.name 2 (Cfg.start env svc inst now) := by
+  rw [start_eq]
+  have := block_ninv env inst svc.type svc.name 2 (PState.init svc inst now) ([] ++ (startBlock env svc inst now).2.1.map (fun p => (now, p)))
+    (startBlock env svc inst now) rfl rfl (by simp [PState.init]) (by simp [PState.init]) (by simp [PState.init, nameOf])
+    (start_res env svc inst now)
+  simpa [Cfg.after, PState.init] using this
+
+theorem wake_ninv (env : Env) (inst type base : String) (k : Nat) (c c' : Cfg) (now : Int) (hinv : Inv c) (hn : NInv inst type base k c)
+    (h : c.wake env now = some c') : NInv inst type base k c' := by
+  obtain ⟨due, hph, h1, h2, rfl⟩ := wake_some env c c' now h
+  simp only [Inv, hph] at hinv
+  obtain ⟨_, hdue, hlt, hi⟩ := hinv
+  simp only [NInv, hph] at hn
+  obtain ⟨a1, a2, a3, a4, a5⟩ := hn
+  have hr := resume_res env c.st now hi (by omega)
+  have := block_ninv env inst type base k { c.st with now := now } (c.sent ++ (resumeBlock env c.st now).2.1.map (fun p => (now, p)))
+    (resumeBlock env c.st now) a1 a2 a3 a4 a5 hr
+  simpa [Cfg.after] using this
+
+theorem run_ninv (allow : Bool) (valid : String → Bool) (inst type base : String) (k : Nat) :
+    ∀ (ws : List Wake) (c c' : Cfg), Inv c → NInv inst type base k c → c.run allow valid ws = some c' → NInv inst type base k c' := by
+  intro ws
+  induction ws with
+  | nil => intro c c' _ hn h; simp [Cfg.run] at h; rw [← h]; exact hn
+  | cons w ws ih =>
+    intro c c' hinv hn h
+    simp only [Cfg.run] at h
+    split at h
+    · rename_i c1 hw
+      exact ih c1 c' (wake_inv _ c c1 w.now hinv hw) (wake_ninv _ inst type base k c c1 w.now hinv hn hw) h
+    · simp at h
+
+/-- a check that is not waiting takes no further block -/
+theorem run_not_waiting (allow : Bool) (valid : String → Bool) (c c' : Cfg) (ws : List Wake) (hnw : ∀ due, c.phase ≠ .waiting due)
+    (h : c.run allow valid ws = some c') : c' = c := by
+  cases ws with
+  | nil => simp [Cfg.run] at h; exact h.symm
+  | cons w ws =>
+    simp only [Cfg.run] at h
+    split at h
+    · rename_i c1 hw
+      obtain ⟨due, hph, _⟩ := wake_some _ c c1 w.now hw
+      exact absurd hph (hnw due)
+    · simp at h
+
 /-! ### the run without conflicts -/
 
 /-- invariant of a run in which no check ever sees the name in the cache; `t0` is the start of the registration -/
